@@ -6,6 +6,7 @@ CONSTANTS
   MaxChan = 3
   Labels = {1}
   Chans = {0, 2, 1}
+  Edits = FALSE
   AutoRule = "max"
 INVARIANT InvConforms
 INVARIANT InvAligned
